@@ -401,7 +401,18 @@ int main(void)
 		PROP(dh.called && dp.called, "C05: header and payload are both serialised into the token");
 		PROP(dh.alg.present && dh.alg.type == JSON_STRING && ref_str_alg(dh.alg.s) == (is_signed ? pv_s_alg : JWT_ALG_NONE),
 		     "C05: the alg header names the algorithm the token was signed with");
+		/* the members the library adds are the ones a checker then reads and judges: a token whose
+		 * exp is not now + offset (offset > 0) or whose nbf is not now + offset is not the token the
+		 * builder was told to make - and, truncated into the past, is refused by the matching checker */
+		if (iat_on)
+			PROP(dp.iat.present && dp.iat.type == JSON_INTEGER && dp.iat.ival == vf_now, "C05: the iat delivered is now");
+		if (nbf_on)
+			PROP(dp.nbf.present && dp.nbf.type == JSON_INTEGER && dp.nbf.ival == vf_now + nbf_off, "C05: the nbf delivered is now + offset");
+		if (exp_on)
+			PROP(dp.exp.present && dp.exp.type == JSON_INTEGER && dp.exp.ival == vf_now + exp_off && dp.exp.ival > vf_now,
+			     "C05: the exp delivered is now + offset, in the future (the matching checker accepts the fresh token)");
 		REACH(is_signed, "signed token serialised");
+		REACH(exp_on && exp_off > (1L << 31), "exp offset beyond 32 bits");
 #endif
 #ifdef PROP_C10
 		PROP(dh.called && dp.called, "C10: header and payload were both serialised");
